@@ -8,7 +8,10 @@ using namespace vh;
 #ifndef TS
 #define TS 40
 #endif
-#define SP (TS / 4)
+#ifndef NI
+#define NI 4   // blocks per retarget interval
+#endif
+#define SP (TS / NI)
 struct RP : BtcChainParamsRegTest {
   bool allowMin = false;
   uint32_t getPowTargetTimespan() const noexcept override { return TS; }
@@ -34,7 +37,7 @@ extern "C" __attribute__((noinline)) void h_retarget() {
   auto& t = newBtcTree(p);
   setMockTime(100000);
   const uint32_t LIMIT = 0x1f7fffff;
-  uint32_t bits[6]; uint32_t times[6];
+  uint32_t bits[NI + 2]; uint32_t times[NI + 2];
 #ifdef MOREBITS   // thorough: a mantissa whose products cross the compact sign-bit normalisation (0x00800000), a little over a quarter of the limit (capped from 3.25 timespans on), a full mantissa one exponent below
   bits[0] = verif_cbool() ? 0x1e008000 : (verif_cbool() ? 0x1f280000 : 0x1e7fffff);
 #else
@@ -42,11 +45,11 @@ extern "C" __attribute__((noinline)) void h_retarget() {
 #endif
   times[0] = 1000;
   t.bootstrapWithGenesis(mk(1, 0, times[0], bits[0]));
-  for (int h = 1; h <= 3; h++) {                                               // heights 1..3: inside the interval
+  for (int h = 1; h <= NI - 1; h++) {                                               // heights 1..3: inside the interval
     times[h] = times[h - 1] + verif_choice(0, 6) * SP;                         // 0..6 spacings per block: actual timespan 0..18 spacings reaches both clamps (T/4 and 4T)
     uint32_t want;
     if (p.allowMin && times[h] > times[h - 1] + 2 * SP) want = LIMIT;
-    else if (p.allowMin) { int k = h - 1; while (k > 0 && k % 4 != 0 && bits[k] == LIMIT) k--; want = bits[k]; }
+    else if (p.allowMin) { int k = h - 1; while (k > 0 && k % NI != 0 && bits[k] == LIMIT) k--; want = bits[k]; }
     else want = bits[h - 1];
     bits[h] = want;
     BtcBlock nb = mk((uint8_t)(h + 1), (uint8_t)h, times[h], want);
@@ -54,37 +57,37 @@ extern "C" __attribute__((noinline)) void h_retarget() {
     ValidationState st;
     verif_check(t.acceptBlockHeader(nb, st), 5);
   }
-  uint32_t actual = times[3] - times[0];
+  uint32_t actual = times[NI - 1] - times[0];
   if (actual < TS / 4) actual = TS / 4;
   if (actual > 4 * TS) actual = 4 * TS;
   bool ovf = false;
-  R256 n = rdiv32(rmul32(refSetCompact(bits[3]), actual, ovf), TS);
+  R256 n = rdiv32(rmul32(refSetCompact(bits[NI - 1]), actual, ovf), TS);
   R256 limit = refSetCompact(LIMIT);
   if (ovf || rcmp(n, limit) > 0) n = limit;
   uint32_t expect = refGetCompact(n);
-  BtcBlock next = mk(5, 4, times[3] + SP, expect);
+  BtcBlock next = mk(NI + 1, NI, times[NI - 1] + SP, expect);
   uint32_t got = getNextWorkRequired(*t.getBestChain().tip(), next, static_cast<const BtcChainParams&>(p));
   verif_check(got == expect, 2);                                               // prescribed difficulty == reference
   ValidationState st;
   verif_check(t.acceptBlockHeader(next, st), 3);                               // a header carrying it is accepted
   ValidationState st2;
-  verif_check(!t.acceptBlockHeader(mk(6, 4, times[3] + SP, expect ^ 1), st2), 4);  // any other difficulty is refused
+  verif_check(!t.acceptBlockHeader(mk(NI + 2, NI, times[NI - 1] + SP, expect ^ 1), st2), 4);  // any other difficulty is refused
   // ---- the first block of the NEW period (height 5): unchanged difficulty, or the min-difficulty rule seen from behind a
   // retarget block (the walk back stops at the retarget block even when it carries the pow-limit difficulty)
-  bits[4] = expect; times[4] = times[3] + SP;
-  times[5] = times[4] + verif_choice(0, 3) * SP;
+  bits[NI] = expect; times[NI] = times[NI - 1] + SP;
+  times[NI + 1] = times[NI] + verif_choice(0, 3) * SP;
   uint32_t want5;
-  if (p.allowMin && times[5] > times[4] + 2 * SP) want5 = LIMIT;
-  else if (p.allowMin) { int k = 4; while (k > 0 && k % 4 != 0 && bits[k] == LIMIT) k--; want5 = bits[k]; }
-  else want5 = bits[4];
-  BtcBlock b5 = mk(7, 5, times[5], want5);
+  if (p.allowMin && times[NI + 1] > times[NI] + 2 * SP) want5 = LIMIT;
+  else if (p.allowMin) { int k = NI; while (k > 0 && k % NI != 0 && bits[k] == LIMIT) k--; want5 = bits[k]; }
+  else want5 = bits[NI];
+  BtcBlock b5 = mk(NI + 3, NI + 1, times[NI + 1], want5);
   verif_check(getNextWorkRequired(*t.getBestChain().tip(), b5, static_cast<const BtcChainParams&>(p)) == want5, 6);
   ValidationState st5;
   verif_check(t.acceptBlockHeader(b5, st5), 7);
-  if (p.allowMin && expect == LIMIT && bits[3] != LIMIT && times[5] <= times[4] + 2 * SP) verif_cover(6);
+  if (p.allowMin && expect == LIMIT && bits[NI - 1] != LIMIT && times[NI + 1] <= times[NI] + 2 * SP) verif_cover(6);
   if (actual == TS / 4) verif_cover(1);
   if (actual == 4 * TS) verif_cover(2);
-  if (expect != bits[3]) verif_cover(3);
+  if (expect != bits[NI - 1]) verif_cover(3);
   if (rcmp(n, limit) == 0 && actual > TS) verif_cover(4);
-  if (p.allowMin && bits[3] == LIMIT && bits[0] != LIMIT) verif_cover(5);
+  if (p.allowMin && bits[NI - 1] == LIMIT && bits[0] != LIMIT) verif_cover(5);
 }
